@@ -5,76 +5,6 @@ verus! {
 //@ item actors/multisig/src/types.rs TxnID
 //@ item actors/multisig/src/state.rs State
 
-// ---- the statement's vesting schedule, written from the property ("linear vesting schedule") ----
-/// amount still locked after `elapsed` epochs of a lock of `initial` over `duration` epochs (rounded up)
-pub open spec fn locked_spec(initial: int, duration: int, elapsed: int) -> int {
-    if elapsed >= duration { 0 }
-    else if elapsed <= 0 { initial }
-    else { ceil_div(initial * (duration - elapsed), duration) }
-}
-
-/// the lock only ever releases: monotone non-increasing in elapsed time, between 0 and initial
-pub proof fn lemma_locked_monotone(initial: int, duration: int, e1: int, e2: int)
-    requires initial >= 0, e1 <= e2
-    ensures
-        locked_spec(initial, duration, e2) <= locked_spec(initial, duration, e1),
-        0 <= locked_spec(initial, duration, e1) <= initial,
-{
-    lemma_locked_range(initial, duration, e1);
-    lemma_locked_range(initial, duration, e2);
-    if 0 < e1 && e2 < duration {
-        let a = initial * (duration - e1);
-        let b = initial * (duration - e2);
-        assert(b <= a) by (nonlinear_arith) requires initial >= 0, e1 <= e2, a == initial * (duration - e1), b == initial * (duration - e2);
-        lemma_ceil_div_monotone(b, a, duration);
-    }
-}
-pub proof fn lemma_locked_range(initial: int, duration: int, e: int)
-    requires initial >= 0
-    ensures 0 <= locked_spec(initial, duration, e) <= initial
-{
-    if 0 < e < duration {
-        let a = initial * (duration - e);
-        assert(0 <= a <= initial * duration) by (nonlinear_arith) requires initial >= 0, 0 < e < duration, a == initial * (duration - e);
-        lemma_ceil_div_monotone(0, a, duration);
-        lemma_ceil_div_monotone(a, initial * duration, duration);
-        assert(ceil_div(0, duration) == 0) by (nonlinear_arith) requires duration > 0;
-        assert(ceil_div(initial * duration, duration) == initial) by (nonlinear_arith) requires duration > 0;
-    }
-}
-pub proof fn lemma_ceil_div_monotone(x: int, y: int, d: int)
-    requires x <= y, d > 0
-    ensures ceil_div(x, d) <= ceil_div(y, d)
-{
-    assert((-y) / d <= (-x) / d) by (nonlinear_arith) requires x <= y, d > 0;
-}
-
-//@ fn actors/multisig/src/state.rs State::amount_locked
-    ensures
-        r@ == locked_spec(self.initial_balance@, self.unlock_duration as int, elapsed_epoch as int),
-//@ end
-
-//@ fn actors/multisig/src/state.rs State::check_available
-    requires
-        // machine arithmetic: the epoch difference must be representable (chain epochs are far below 2^62)
-        i64::MIN <= curr_epoch - self.start_epoch <= i64::MAX,
-    ensures
-        // "never leaves the wallet's balance below the amount still locked"
-        r.is_ok() <==> (amount_to_spend@ >= 0 && balance@ >= amount_to_spend@
-            && (amount_to_spend@ == 0
-                || balance@ - amount_to_spend@ >= locked_spec(self.initial_balance@, self.unlock_duration as int, curr_epoch - self.start_epoch))),
-//@ end
-
-//@ fn actors/multisig/src/state.rs State::set_locked
-    ensures
-        final(self).start_epoch == start_epoch,
-        final(self).unlock_duration == unlock_duration,
-        final(self).initial_balance@ == locked_amount@,
-        final(self).signers == old(self).signers,
-        final(self).num_approvals_threshold == old(self).num_approvals_threshold,
-        final(self).next_tx_id == old(self).next_tx_id,
-        final(self).pending_txs == old(self).pending_txs,
-//@ end
-
+//@ include units/shared/ms_state.inc
 } // verus!
 fn main() {}
